@@ -1,18 +1,21 @@
 SPECIFICATION PresetSpec
 CONSTANTS
   ModelSel = {1,2,3}
-  BoundSel = {1}
+  BoundSel = {1,5}
   FactorSel = {1}
   PriorSel = {1,2}
   ModeSel = {1,2,3}
   KSel = {4}
-  MaxLevel = 5
+  MaxLevel = 6
   PriorTable = "persist_user_only"
   ViewSpace = "prior_mode"
   DerivedLookup = "derived"
   ObsMerge = "always"
   ModeStore = "canonical"
   UpdateGuard = "before"
+  BoundaryGuard = "none"
+  UpdateArg = "kept"
+  TrackArg = TRUE
   ModeCalls <- MCModeCalls
   InvalidModes <- MCInvalidOne
   ObsParams <- MCObsParams
@@ -30,6 +33,6 @@ CONSTANTS
   Factors <- MCFactors
   UserPriors <- MCUserPriors
   K <- MCK
-CONSTRAINT Emit
+CONSTRAINT PresetEmit
 CONSTRAINT HistBound
 CHECK_DEADLOCK FALSE
